@@ -71,8 +71,8 @@ macro_rules! enum_harness {
                 assert!(bytes_eq(v.mnemonic(), $mn), "C20/ScpiEnum::mnemonic/each-variant-reports-its-own-mnemonic");
                 let mut out = alloc::vec::Vec::<u8>::new();
                 assert!(v.format_response_data(&mut out).is_ok(), "C20/ScpiEnum::format_response_data/ok");
-                assert!(spec_match($mn, &out), concat!("C20/ScpiEnum::format_response_data/emitted-text-matches-", stringify!($mn)));
-                assert!(<$e>::from_mnemonic(&out) == Some(v), concat!("C20/ScpiEnum::format_response_data/emitted-text-selects-the-same-variant-", stringify!($mn)));
+                assert!(spec_match($mn, &out), "C20/ScpiEnum::format_response_data/emitted-text-matches-the-variants-mnemonic");
+                assert!(<$e>::from_mnemonic(&out) == Some(v), "C20/ScpiEnum::format_response_data/emitted-text-selects-the-same-variant");
             )+
             // other element types are a type error
             let p: [u8; 3] = kani::any();
